@@ -67,3 +67,487 @@ def contracts():
 
 
 ASSUMPTIONS = ["Parameter._slot_defaults is the literal dict in the source (evaluated from the class body)"]
+
+
+# ---------------------------------------------------------------------------------------------
+# Block contract: the per-slot MRO search of ParameterizedMetaclass.__param_inheritance
+# ---------------------------------------------------------------------------------------------
+INHERIT_REPLAY = '''import sys, os, itertools
+sys.path.insert(0, os.environ.get('PYVC_REPO', '/repo'))
+import param
+from param.parameterized import Undefined
+bad = []
+SLOTS = {'doc': ['dA', 'dB'], 'bounds': [(0, 10), (-5, 50)], 'softbounds': [(1, 2), (3, 4)], 'step': [1, 2],
+         'default': [3, 4], 'precedence': [0.5, 1.5], 'label': ['LA', 'LB'], 'constant': [True], 'readonly': [True],
+         'per_instance': [False], 'inclusive_bounds': [(False, True)]}
+def declared(kw):
+    return param.Number(**kw)
+def check(label, classes, decl):
+    # decl: {class name: kwargs it declared}; independent resolver over the declared hierarchy
+    # (allow_None and instantiate follow their own rules and are not part of this replay)
+    leaf = classes[-1]
+    p = leaf.param['x']
+    for slot in SLOTS:
+        want = Undefined
+        for k in leaf.__mro__:
+            kw = decl.get(k.__name__)
+            if kw is not None and slot in kw:
+                want = kw[slot]; break
+        if want is Undefined:
+            continue
+        got = getattr(p, slot)
+        if got != want:
+            bad.append('%s: slot %s is %r, the nearest class declaring it gives %r' % (label, slot, got, want))
+names = list(SLOTS)
+import random
+rnd = random.Random(7)
+for trial in range(300):
+    shape = rnd.choice(['chain3', 'skip', 'diamond'])
+    def kws(i):
+        ks = rnd.sample(names, rnd.randint(0, 4))
+        return {k: SLOTS[k][min(i, len(SLOTS[k]) - 1)] for k in ks}
+    dA, dB, dC = kws(0), kws(1), kws(0)
+    try:
+        A = type('A', (param.Parameterized,), {'x': declared(dA)})
+        if shape == 'chain3':
+            B = type('B', (A,), {'x': declared(dB)}); C = type('C', (B,), {'x': declared(dC)})
+            check('chain A<-B<-C %r %r %r' % (dA, dB, dC), [A, B, C], {'A': dA, 'B': dB, 'C': dC})
+        elif shape == 'skip':
+            B = type('B', (A,), {}); C = type('C', (B,), {'x': declared(dC)})
+            check('skip A<-B(no decl)<-C %r %r' % (dA, dC), [A, B, C], {'A': dA, 'C': dC})
+        else:
+            B = type('B', (A,), {'x': declared(dB)}); B2 = type('B2', (A,), {}); C = type('C', (B2, B), {'x': declared(dC)})
+            check('diamond %r %r %r' % (dA, dB, dC), [A, B, C], {'A': dA, 'B': dB, 'C': dC})
+    except (RuntimeError, ValueError, TypeError):
+        pass          # merged default rejected: not the subject of this replay
+if bad:
+    print('REPRODUCED: C11 an unspecified attribute does not take the value of the nearest class declaring it:')
+    for b in bad[:6]:
+        print('  ', b)
+    sys.exit(1)
+print('NOT-REPRODUCED'); sys.exit(0)
+'''
+
+
+def slot_search_contract():
+    """Body of `for slot in slots.keys():` in `__param_inheritance`, executed for an ARBITRARY slot
+    name over an ARBITRARY class list `supers` (symbolic tuple, unbounded length): the value kept for
+    the slot is the one held by the nearest class (first in MRO order) that declares the Parameter
+    with that attribute set; else the type's default (`_slot_defaults`), computed ones deferred to
+    `callables`; the values kept for other slots are untouched (independence per attribute)."""
+    import ast as _ast
+    from pyvc.loops import LoopSpec
+    from pyvc.objects import sym_field
+    holder = {}
+    QUAL = "ParameterizedMetaclass.__param_inheritance"
+    declp = z3.Function("declared_parameter", vm.V, vm.V)           # scls.__dict__.get(param_name)
+    has2 = z3.Function("has_slot", vm.V, vm.V, z3.BoolSort())       # hasattr(p, slot)
+    attr2 = z3.Function("slot_value", vm.V, vm.V, vm.V)             # getattr(p, slot)
+
+    def configure(I):
+        from pyvc import builtins_lib as bl
+        I.sym_fields = {"__dict__"}
+
+        def vmethod(I, st, name, selfv, args, kwargs, ctx):
+            if name == "get" and isinstance(selfv, Sym):
+                t = declp(I.term(selfv))
+                I.U.well_typed(t)
+                return [(st, Sym(t))]
+            return None
+        I.lib["$value_method"] = vmethod
+
+        def h_hasattr(I, st, fv, args, kwargs, ctx):
+            if isinstance(args[1], Sym):
+                return [(st, BoolV(has2(I.term(args[0]), args[1].t)))]
+            return bl.h_hasattr(I, st, fv, args, kwargs, ctx)
+        I.lib["hasattr"] = h_hasattr
+
+        def h_getattr(I, st, fv, args, kwargs, ctx):
+            if isinstance(args[1], Sym) and len(args) == 2:
+                t = attr2(I.term(args[0]), args[1].t)
+                I.U.well_typed(t)
+                return [(st, Sym(t))]
+            return bl.h_getattr(I, st, fv, args, kwargs, ctx)
+        I.lib["getattr"] = h_getattr
+
+    def decl_of(cls_t):
+        return declp(z3.Select(holder["Fdict"], cls_t))
+
+    def qual_elem(x):
+        d = decl_of(x)
+        s = holder["s"]
+        return z3.And(d != holder["NONE"], has2(d, s), attr2(d, s) != holder["UNDEF"])
+
+    def setup(I, st):
+        U = I.U
+        holder["NONE"], holder["UNDEF"] = U.NONE, U.UNDEF
+        s = U.fresh("slot")
+        st.pc.append(vm.ty(s) == vm.TAG["str"])
+        holder["s"] = s
+        holder["Fdict"] = sym_field(I, st, "__dict__")
+        supers = U.fresh("supers")
+        st.pc += [vm.ty(supers) == vm.TAG["tuple"], vm.tlen(supers) >= 0]
+        U.well_typed(supers)
+        holder["supers"] = supers
+        n = vm.tlen(supers)
+        noq = S.fold(I, "no_class_declares_the_slot", lambda x: z3.Not(qual_elem(x)))
+        holder["noq"] = noq
+        fq = U.fresh_int("nearest")            # index of the nearest class declaring the slot (n: none)
+        holder["fq"] = fq
+        st.pc.append(z3.Or(z3.And(fq == n, noq.tfn(supers, n)),
+                           z3.And(fq >= 0, fq < n, qual_elem(vm.titem(supers, fq)), noq.tfn(supers, fq))))
+        U.well_typed(vm.titem(supers, fq))
+        st.pc.append(noq.elim(supers, n, fq))
+        D = I.alloc_dict(st, keys=U.fresh_seq("slot_default_names"), vals=z3.Const("slot_defaults", z3.ArraySort(vm.V, vm.V)))
+        param, T = S.param_obj(I, st, "Parameter", {"name": None, "allow_refs": None}, label="param")
+        st.heap[param.oid].fields["_slot_defaults"] = D
+        st.heap[param.oid].init["_slot_defaults"] = D
+        mcs = I.alloc_obj(st, "ParameterizedMetaclass", lazy=True, label="mcs")
+        priv = I.alloc_obj(st, "_ClassPrivate", lazy=False, label="mcs._param__private")
+        st.heap[priv.oid].fields["explicit_no_refs"] = I.alloc_list(st, U.fresh_seq("explicit_no_refs"))
+        st.heap[mcs.oid].fields["_param__private"] = priv
+        sv = I.alloc_dict(st, keys=U.fresh_seq("kept_names"), vals=z3.Const("kept_values", z3.ArraySort(vm.V, vm.V)))
+        cl = I.alloc_dict(st, keys=U.fresh_seq("callable_names"), vals=z3.Const("callable_values", z3.ArraySort(vm.V, vm.V)))
+        hs, hc = st.heap[sv.oid], st.heap[cl.oid]
+        # block precondition: each key of `slots` is visited once, so nothing is recorded for it yet
+        st.pc += [z3.Not(z3.Contains(hs.keys, z3.Unit(s))), z3.Not(z3.Contains(hc.keys, z3.Unit(s)))]
+        so, tc = U.fresh("slot_overridden"), U.fresh("type_change")
+        st.pc += [S.is_bool(I, so), S.is_bool(I, tc)]
+        pname = U.fresh("param_name")
+        st.pc.append(vm.ty(pname) == vm.TAG["str"])
+        other = U.fresh("other_slot")
+        st.pc.append(other != s)
+        env = {"slot": Sym(s), "supers": Sym(supers), "slot_values": sv, "callables": cl, "param": param, "mcs": mcs,
+               "slot_overridden": Sym(so), "type_change": Sym(tc), "param_name": Sym(pname)}
+        return {"env": env, "sv": sv, "cl": cl, "D": D, "so0": so, "other": other,
+                "sv0": (hs.keys, hs.vals), "cl0": (hc.keys, hc.vals), "symbols": {}}
+
+    def runner(I, st, info, ctx):
+        from contracts.c05 import outcomes
+        module, cname, fd = I.src.locate("%s:%s" % (MOD, QUAL))
+        loop = [x for x in fd.body if isinstance(x, _ast.For) and _ast.unparse(x.iter) == "slots.keys()"]
+        if len(loop) != 1:
+            raise OutOfReach("`for slot in slots.keys():` not found in __param_inheritance")
+        holder["info"] = info
+        st.env = dict(info["env"])
+        c = dict(ctx)
+        c.update({"module": module, "owner": cname, "qual": QUAL, "fnode": fd})
+        return outcomes(I.exec_block(loop[0].body, st, c))
+
+    def cur_of(st, ref, key):
+        h = st.heap[ref.oid]
+        return z3.If(z3.Contains(h.keys, z3.Unit(key)), z3.Select(h.vals, key), holder["UNDEF"])
+
+    def frame(st, ref, old, o):
+        h = st.heap[ref.oid]
+        return z3.And(z3.Contains(h.keys, z3.Unit(o)) == z3.Contains(old[0], z3.Unit(o)),
+                      z3.Implies(z3.Contains(old[0], z3.Unit(o)), z3.Select(h.vals, o) == z3.Select(old[1], o)))
+
+    def val_at(j):
+        return attr2(decl_of(vm.titem(holder["supers"], j)), holder["s"])
+
+    def inv(I, st, pre):
+        info = holder["info"]
+        s, fq, noq, supers = holder["s"], holder["fq"], holder["noq"], holder["supers"]
+        cur = cur_of(st, info["sv"], s)
+        so = I.term(st.env["slot_overridden"])
+        return z3.And(
+            z3.Implies(cur == holder["UNDEF"], noq.tfn(supers, pre.n)),
+            z3.Implies(cur != holder["UNDEF"], z3.And(fq < pre.n, cur == val_at(fq))),
+            z3.Implies(cur == holder["UNDEF"], z3.Not(z3.Contains(st.heap[info["sv"].oid].keys, z3.Unit(s)))),   # Undefined is never stored
+            frame(st, info["sv"], info["sv0"], info["other"]),
+            z3.Or(so == I.U.TRUE, so == I.U.FALSE, so == info["so0"]),
+            z3.Implies(vm.truthy(info["so0"]), vm.truthy(so)))
+
+    def havoc(I, st):
+        h = st.heap[holder["info"]["sv"].oid]
+        h.keys = I.U.fresh_seq("kept_names")
+        h.vals = z3.Const("kept_values!%d" % I.new_oid(), z3.ArraySort(vm.V, vm.V))
+        h.ckeys = None
+        h.fields.pop("$entries", None)
+
+    def elem_facts(I, st, x, i):
+        fq, noq, supers = holder["fq"], holder["noq"], holder["supers"]
+        return [noq.elim(supers, fq, i), noq.elim(supers, i, fq)]
+
+    def post(I, info, st, oc):
+        U = I.U
+        s, fq, supers = holder["s"], holder["fq"], holder["supers"]
+        n = vm.tlen(supers)
+        hd = st.heap[info["D"].oid]
+        has_default = z3.Contains(hd.keys, z3.Unit(s))
+        dv = z3.Select(hd.vals, s)
+        if isinstance(oc, Raise):
+            return [("raises only KeyError, and only when no class declares the attribute and the type has no default for it",
+                     z3.And(z3.BoolVal(oc.cls == "KeyError"), fq == n, z3.Not(has_default)))]
+        hs, hc = st.heap[info["sv"].oid], st.heap[info["cl"].oid]
+        u = z3.Unit(s)
+        out = [("nearest/the value kept is the one held by the nearest class that declares the Parameter with that attribute",
+                z3.Implies(fq < n, z3.And(z3.Contains(hs.keys, u), z3.Select(hs.vals, s) == val_at(fq), z3.Not(z3.Contains(hc.keys, u))))),
+               ("default/else the type's default: a plain value is kept, a computed one is deferred",
+                z3.Implies(fq == n, z3.And(has_default, z3.If(
+                    vm.is_callable(dv),
+                    z3.And(z3.Contains(hc.keys, u), z3.Select(hc.vals, s) == dv, z3.Not(z3.Contains(hs.keys, u))),
+                    z3.And(z3.Contains(hs.keys, u), z3.Select(hs.vals, s) == dv, z3.Not(z3.Contains(hc.keys, u))))))),
+               ("independent/values kept for other attributes are untouched",
+                z3.And(frame(st, info["sv"], info["sv0"], info["other"]), frame(st, info["cl"], info["cl0"], info["other"]))),
+               ("revalidation flag is never reset", z3.Implies(vm.truthy(info["so0"]), vm.truthy(I.term(st.env["slot_overridden"]))))]
+        return out
+    loops = {(QUAL, "supers"): LoopSpec("supers", inv=inv, heap=havoc, name="search-up-the-hierarchy", elem_facts=elem_facts)}
+    c = FunctionContract("%s:%s" % (MOD, QUAL), PROP, setup, post, configure=configure, loops=loops,
+                         name="__param_inheritance[per-slot search, arbitrary slot and class list]")
+    c.runner = runner
+    c.static_replay = INHERIT_REPLAY
+    c.static_witness = "random chains / skipped declarations / diamonds of Number declarations vs an independent nearest-declaring-class resolver"
+    return c
+
+
+_c11_base = contracts
+
+
+def contracts():
+    return _c11_base() + [slot_search_contract()]
+
+
+def instantiate_typechange_contract():
+    """`type_change = False; for superclass in supers: …` of `__param_inheritance` over an arbitrary
+    class list: `instantiate=True` is inherited from ANY class of the list that declares the Parameter
+    with instantiate True (else the Parameter keeps its own), and `type_change` is True exactly when
+    some declaring class holds a Parameter whose type is not a subclass of this Parameter's type."""
+    import ast as _ast
+    from pyvc import builtins_lib as bl
+    from pyvc import lib_misc as lm
+    from pyvc.loops import LoopSpec
+    from pyvc.objects import sym_field
+    holder = {}
+    QUAL = "ParameterizedMetaclass.__param_inheritance"
+    declp = z3.Function("declared_parameter", vm.V, vm.V)
+
+    def configure(I):
+        I.sym_fields = {"__dict__", "instantiate"}
+
+        def vmethod(I, st, name, selfv, args, kwargs, ctx):
+            if name == "get" and isinstance(selfv, Sym):
+                t = declp(I.term(selfv))
+                I.U.well_typed(t)
+                return [(st, Sym(t))]
+            return None
+        I.lib["$value_method"] = vmethod
+
+    def setup(I, st):
+        U = I.U
+        Fd = sym_field(I, st, "__dict__")
+        Fi = sym_field(I, st, "instantiate")
+        supers = U.fresh("supers")
+        st.pc += [vm.ty(supers) == vm.TAG["tuple"], vm.tlen(supers) >= 0]
+        U.well_typed(supers)
+        p_type = U.fresh("p_type")
+        st.pc.append(vm.ty(p_type) == vm.TAG["type"])
+        param, T = S.param_obj(I, st, "Parameter", {"instantiate": None, "name": None}, label="param")
+        pname = U.fresh("param_name")
+        st.pc.append(vm.ty(pname) == vm.TAG["str"])
+
+        def is_param(x):
+            d = declp(z3.Select(Fd, x))
+            f = bl.isinstance_formula(I, st, Sym(d), ClsV("Parameter"))
+            return d, (z3.BoolVal(f) if isinstance(f, bool) else f)
+
+        def p_inst(x):
+            d, isp = is_param(x)
+            return z3.Not(z3.And(isp, z3.Select(Fi, d) == U.TRUE))
+
+        def p_type_ok(x):
+            d, isp = is_param(x)
+            (_, tv), = bl.h_type(I, st, None, [Sym(d)], {}, {})
+            return z3.Not(z3.And(isp, z3.Not(lm.issub(I.term(tv), p_type))))
+        holder["noinst"] = S.fold(I, "no_class_declares_instantiate_True", p_inst)
+        holder["types_ok"] = S.fold(I, "every_declared_type_is_a_subclass", p_type_ok)
+        holder.update({"supers": supers, "param": param, "inst0": T["instantiate"]})
+        env = {"supers": Sym(supers), "param": param, "param_name": Sym(pname), "p_type": Sym(p_type)}
+        return {"env": env, "param": param, "symbols": {}}
+
+    def runner(I, st, info, ctx):
+        from contracts.c05 import outcomes
+        module, cname, fd = I.src.locate("%s:%s" % (MOD, QUAL))
+        idx = [i for i, x in enumerate(fd.body) if isinstance(x, _ast.For) and _ast.unparse(x.iter) == "supers"
+               and _ast.unparse(x.target) == "superclass"]
+        if len(idx) != 1 or _ast.unparse(fd.body[idx[0] - 1]) != "type_change = False":
+            raise OutOfReach("`type_change = False; for superclass in supers:` not found in __param_inheritance")
+        st.env = dict(info["env"])
+        c = dict(ctx)
+        c.update({"module": module, "owner": cname, "qual": QUAL, "fnode": fd})
+        return outcomes(I.exec_block(fd.body[idx[0] - 1: idx[0] + 1], st, c))
+
+    def inst_now(I, st):
+        return I.term(st.heap[holder["param"].oid].fields["instantiate"])
+
+    def expected(I, st, n):
+        sup = holder["supers"]
+        return z3.And(inst_now(I, st) == z3.If(holder["noinst"].tfn(sup, n), holder["inst0"], I.U.TRUE),
+                      I.term(st.env["type_change"]) == z3.If(holder["types_ok"].tfn(sup, n), I.U.FALSE, I.U.TRUE))
+
+    def inv(I, st, pre):
+        return expected(I, st, pre.n)
+
+    def havoc(I, st):
+        h = st.heap[holder["param"].oid]
+        h.fields["instantiate"] = Sym(I.U.fresh("param.instantiate"))
+
+    def post(I, info, st, oc):
+        if isinstance(oc, Raise):
+            return [("does-not-raise", z3.BoolVal(False))]
+        sup = holder["supers"]
+        n = vm.tlen(sup)
+        return [("instantiate=True is inherited from any class that declares it, else the own value is kept",
+                 inst_now(I, st) == z3.If(holder["noinst"].tfn(sup, n), holder["inst0"], I.U.TRUE)),
+                ("type_change is True exactly when a declaring class holds a Parameter of a type that is not a subclass",
+                 I.term(st.env["type_change"]) == z3.If(holder["types_ok"].tfn(sup, n), I.U.FALSE, I.U.TRUE)),
+                ("nothing else of the Parameter is written", S.heap_unchanged(I, st, info["param"], except_=("instantiate",)))]
+    loops = {(QUAL, "supers"): LoopSpec("supers", inv=inv, heap=havoc, name="inherit-instantiate")}
+    c = FunctionContract("%s:%s" % (MOD, QUAL), PROP, setup, post, configure=configure, loops=loops,
+                         name="__param_inheritance[instantiate / type change over an arbitrary class list]")
+    c.runner = runner
+    c.static_replay = INSTANTIATE_REPLAY
+    c.static_witness = "chains and diamonds in which one ancestor declares instantiate=True / a different Parameter type"
+    return c
+
+
+INSTANTIATE_REPLAY = '''import sys, os, itertools
+sys.path.insert(0, os.environ.get('PYVC_REPO', '/repo'))
+import param
+bad = []
+for flags in itertools.product([None, True, False], repeat=3):
+    for shape in ('chain', 'diamond', 'skip'):
+        def mk(f):
+            return param.Parameter(default=[1]) if f is None else param.Parameter(default=[1], instantiate=f)
+        A = type('A', (param.Parameterized,), {'x': mk(flags[0])})
+        if shape == 'chain':
+            B = type('B', (A,), {'x': mk(flags[1])}); C = type('C', (B,), {'x': mk(flags[2])})
+        elif shape == 'skip':
+            B = type('B', (A,), {}); C = type('C', (B,), {'x': mk(flags[2])})
+        else:
+            B = type('B', (A,), {'x': mk(flags[1])}); B2 = type('B2', (A,), {}); C = type('C', (B2, B), {'x': mk(flags[2])})
+        declared = [flags[0], flags[2]] + ([flags[1]] if shape != 'skip' else [])
+        want = True if True in declared else bool(flags[2])
+        if C.param.x.instantiate is not want:
+            bad.append('%s %r: C.param.x.instantiate is %r, expected %r' % (shape, flags, C.param.x.instantiate, want))
+# type change triggers the re-validation of the merged default
+class A(param.Parameterized):
+    x = param.Number(default=2.5)
+try:
+    class B(A):
+        x = param.Integer()
+    bad.append('Number(2.5) redeclared as Integer(): class created with default %r' % (B.param.x.default,))
+except RuntimeError:
+    pass
+# a merged default of None is re-checked only if the Parameter type changed
+class A2(param.Parameterized):
+    x = param.Number(default=None, allow_None=True)
+try:
+    class B2(A2):
+        x = param.Number(bounds=(0, 1))
+except RuntimeError:
+    bad.append('Number(None, allow_None=True) redeclared as Number(bounds=(0, 1)): the None default was re-checked although the type did not change')
+try:
+    class C2(A2):
+        x = param.Integer()
+    bad.append('Number(None, allow_None=True) redeclared as Integer(): class created although the type changed and None is not allowed')
+except RuntimeError:
+    pass
+try:
+    class D2(A):
+        x = param.Number(bounds=(0, 1))
+    bad.append('Number(2.5) redeclared with bounds=(0, 1): class created with default %r outside its bounds' % (D2.param.x.default,))
+except RuntimeError:
+    pass
+class V(param.Number):
+    def _validate(self, val):
+        if val == 2.5:
+            raise OSError('custom validation failure')
+try:
+    class E2(A):
+        x = V()
+    bad.append('a Parameter type whose validation raises OSError: class created')
+except RuntimeError:
+    pass
+except OSError:
+    bad.append('a Parameter type whose validation raises OSError: the error escaped class creation instead of RuntimeError')
+if bad:
+    print('REPRODUCED: C11 instantiate inheritance / type-change detection / re-validation of the merged default:')
+    for b in bad[:6]:
+        print('  ', b)
+    sys.exit(1)
+print('NOT-REPRODUCED'); sys.exit(0)
+'''
+
+
+_c11_base2 = contracts
+
+
+def contracts():
+    return _c11_base2() + [instantiate_typechange_contract()]
+
+
+def revalidation_contract():
+    """Last statement of `__param_inheritance` (`if type_change or slot_overridden and
+    param.default is not None: …`): the merged default is re-validated exactly when the type changed,
+    or an attribute was overridden and the merged default is not None; class creation fails with
+    RuntimeError exactly when that validation fails, and succeeds silently otherwise."""
+    import ast as _ast
+    holder = {}
+    QUAL = "ParameterizedMetaclass.__param_inheritance"
+
+    def configure(I):
+        def validate(I, st, fv, args, kwargs, ctx):
+            st.ghost["validated"] = st.ghost.get("validated", []) + [I.term(args[0])]
+            q = st.fork()
+            q2 = st.fork()
+            return [(st, Conc(None)), (q, Raise("ValueError", origin="_validate")), (q2, Raise("TypeError", origin="_validate"))]
+        I.contracts["Parameter._validate"] = validate
+
+    def setup(I, st):
+        U = I.U
+        param, T = S.param_obj(I, st, "Parameter", {"default": None, "name": None}, label="param")
+        mcs = I.alloc_obj(st, "ParameterizedMetaclass", lazy=True, label="mcs")
+        so, tc = U.fresh("slot_overridden"), U.fresh("type_change")
+        st.pc += [S.is_bool(I, so), S.is_bool(I, tc)]
+        env = {"param": param, "mcs": mcs, "slot_overridden": Sym(so), "type_change": Sym(tc), "param_name": Sym(U.fresh("param_name"))}
+        return {"env": env, "param": param, "so": so, "tc": tc, "default": T["default"], "symbols": {}}
+
+    def runner(I, st, info, ctx):
+        from contracts.c05 import outcomes
+        module, cname, fd = I.src.locate("%s:%s" % (MOD, QUAL))
+        last = fd.body[-1]
+        if not (isinstance(last, _ast.If) and "param._validate(param.default)" in _ast.unparse(last)):
+            raise OutOfReach("re-validation statement not found at the end of __param_inheritance")
+        st.env = dict(info["env"])
+        c = dict(ctx)
+        c.update({"module": module, "owner": cname, "qual": QUAL, "fnode": fd})
+        return outcomes(I.exec_stmt(last, st, c))
+
+    def post(I, info, st, oc):
+        U = I.U
+        must = z3.Or(info["tc"] == U.TRUE, z3.And(info["so"] == U.TRUE, info["default"] != U.NONE))
+        calls = st.ghost.get("validated", [])
+        out = [("the merged default is re-validated exactly when the type changed, or an attribute was overridden and the default is not None",
+                must == z3.BoolVal(len(calls) == 1)),
+               ("at most one validation, of the merged default", z3.BoolVal(len(calls) <= 1 and all(z3.eq(c, info["default"]) for c in calls)))]
+        if isinstance(oc, Raise):
+            out.append(("class creation fails with RuntimeError, and only because the validation failed",
+                        z3.BoolVal(oc.cls == "RuntimeError" and len(calls) == 1)))
+        else:
+            out.append(("nothing of the Parameter is written", S.heap_unchanged(I, st, info["param"])))
+        return out
+    c = FunctionContract("%s:%s" % (MOD, QUAL), PROP, setup, post, configure=configure,
+                         name="__param_inheritance[re-validation of the merged default]")
+    c.runner = runner
+    c.static_replay = INSTANTIATE_REPLAY
+    c.static_witness = "chains and diamonds in which one ancestor declares instantiate=True / a different Parameter type"
+    return c
+
+
+_c11_base3 = contracts
+
+
+def contracts():
+    return _c11_base3() + [revalidation_contract()]
